@@ -105,3 +105,53 @@ Theorem C18_netip_prefix_key_length : forall (is4 : bool) (addr : bytes) (bits :
 Proof. exact netip_prefix_key_length. Qed.
 Print Assumptions C18_netip_prefix_key_length.
 End C18_NetIP.
+
+(* ---- the query-string variants of the integer encoders (index/int.go XString: strconv base 10), index.NetIP and
+   lpm.NetIPPrefix4ToIndexKey (KeyEnc/Strings.v; compared with the code by the ops u16s..i64s, nip, nipp4) *)
+From SV Require Import KeyEnc.NetIP KeyEnc.Strings.
+
+(* a decimal string with leading zeros denotes the number without them (not an octal one) *)
+Theorem C18_string_leading_zeros_ignored : forall r bits, r <> [] -> parse_uint (48 :: r) bits = parse_uint r bits.
+Proof. exact parse_uint_leading_zero. Qed.
+Print Assumptions C18_string_leading_zeros_ignored.
+
+(* equal values give equal keys, different values different keys, the key of the string variant is the key of
+   the value variant, unsigned keys order numerically - for any two accepted strings *)
+Theorem C18_uint_string_keys : forall s1 s2 v1 v2,
+  (parse_uint s1 16 = Some v1 -> parse_uint s2 16 = Some v2 ->
+     uint16_string_key s1 = Some (uint16_key v1) /\ (uint16_string_key s1 = uint16_string_key s2 <-> v1 = v2) /\
+     (v1 < v2 <-> lex_lt (uint16_key v1) (uint16_key v2))) /\
+  (parse_uint s1 32 = Some v1 -> parse_uint s2 32 = Some v2 ->
+     uint32_string_key s1 = Some (uint32_key v1) /\ (uint32_string_key s1 = uint32_string_key s2 <-> v1 = v2) /\
+     (v1 < v2 <-> lex_lt (uint32_key v1) (uint32_key v2))) /\
+  (parse_uint s1 64 = Some v1 -> parse_uint s2 64 = Some v2 ->
+     uint64_string_key s1 = Some (uint64_key v1) /\ (uint64_string_key s1 = uint64_string_key s2 <-> v1 = v2) /\
+     (v1 < v2 <-> lex_lt (uint64_key v1) (uint64_key v2))).
+Proof. exact uint_string_keys. Qed.
+Print Assumptions C18_uint_string_keys.
+
+Theorem C18_int_string_keys : forall s1 s2 v1 v2,
+  (parse_int s1 16 = Some v1 -> parse_int s2 16 = Some v2 -> (int16_string_key s1 = int16_string_key s2 <-> v1 = v2)) /\
+  (parse_int s1 32 = Some v1 -> parse_int s2 32 = Some v2 -> (int32_string_key s1 = int32_string_key s2 <-> v1 = v2)) /\
+  (parse_int s1 64 = Some v1 -> parse_int s2 64 = Some v2 -> (int64_string_key s1 = int64_string_key s2 <-> v1 = v2)).
+Proof. exact int_string_keys. Qed.
+Print Assumptions C18_int_string_keys.
+
+(* index.NetIP: the 4-byte and the IPv4-mapped 16-byte form of an address give the same 16-byte key *)
+Theorem C18_netip_key_forms : forall a4, length a4 = 4%nat ->
+  netip_key a4 = netip_key (as16 true a4) /\ length (netip_key a4) = 16%nat /\
+  (forall b4, length b4 = 4%nat -> netip_key a4 = netip_key b4 -> a4 = b4) /\
+  (forall a16, length a16 = 16%nat -> netip_key a16 = a16).
+Proof. exact netip_key_forms. Qed.
+Print Assumptions C18_netip_key_forms.
+
+(* lpm.NetIPPrefix4ToIndexKey is EncodeLPMKey of the four address bytes: C18_lpm_roundtrip applies to it *)
+Theorem C18_netip_prefix4_is_encode : forall addr bits, netip_prefix4_lpm_key addr bits = lpmEncode addr bits.
+Proof. exact netip_prefix4_is_encode. Qed.
+Print Assumptions C18_netip_prefix4_is_encode.
+
+Example C18_strings_nonvacuous :
+  parse_uint [48; 49; 48] 16 = Some 10 /\ uint16_string_key [48; 49; 48] = Some [0; 10] /\
+  parse_int [45; 53] 16 = Some (-5)%Z /\ parse_uint [48; 120; 49] 16 = None /\
+  netip_prefix4_lpm_key [10; 255; 0; 0] 9 = Some [10; 128; 0; 9].
+Proof. vm_compute. repeat split. Qed.
